@@ -208,6 +208,8 @@ def c12(tier):
         pairs = [l for l in layouts if len(l) == 2]
         rnd.shuffle(pairs)
         layouts = [l for l in layouts if len(l) != 2] + pairs[:40]
+    # the words "not" (12) and "in" (14) next to each other ARE the operator "not in": not a two-token layout
+    layouts = [l for l in layouts if not any(a == 12 and b == 14 for a, b in zip(l, l[1:]))]
     for lay in layouts:
         prm = {'k': len(lay), 'gap': 2 if (len(lay) < 3 and 4 not in lay) else 1}
         for i, t in enumerate(lay):
